@@ -3,6 +3,7 @@ package props
 import (
 	"fmt"
 	"go/token"
+	"strings"
 
 	"golang.org/x/tools/go/ssa"
 
@@ -382,6 +383,18 @@ func runC01(c *eng.Ctx) {
 	}
 	c.Expect("GUARD-handler-cookie", 6)
 	c.Expect("ORDER-append-then-index", 2)
+
+	// (4z) what a read returns for a key is found through the in-memory index: the 5th offset byte travels with its entry
+	if n := lockstepExtra(c, "LOCKSTEP-index"); n < 30 {
+		c.Undecided("LOCKSTEP-index", "discovery", token.NoPos, fmt.Sprintf("only %d entry accesses of the compact map found (expected >= 30)", n))
+	}
+	// a blob is served until its own TTL has passed since it was appended (the time the volume server wrote it), not
+	// since the client-supplied modification time
+	if rd := c.NeedFunc("weed/storage", "(*Volume).readNeedle"); rd != nil {
+		feat, pos := expiryFeatures(rd)
+		c.Ob("GUARD-read-expiry", eng.FuncName(rd)+" counts-from-append-time", strings.Contains(feat, "Needle.AppendAtNs") && !strings.Contains(feat, "Needle.LastModified"), pos,
+			"the read path decides expiry from the append time and the blob's TTL: {"+feat+"}")
+	}
 
 	// (5a) a write or delete that arrives while the volume is compacted survives the commit with its latest state
 	if fn := c.NeedFunc("weed/storage", "(*Volume).makeupDiff"); fn != nil {
